@@ -24,7 +24,7 @@ CHECKS = {
          "plain positionals and unknown long options (Pass/Warn) are retained wherever they stand relative to the command token, and the tail behind the first `--` is verbatim; "
          "constructed shapes cover positionals/unknowns before and after a command and bundles of unknown letters.",
          "argv of 2 raw tokens, bundles of <=2 letters, letters of 1-2 UTF-8 bytes (wider / invalid sequences are cut and counted); retention rules are necessary conditions only (DESIGN.md C03); "),
- "C04": ("For 11 contexts before `--` (nothing, positional, flag, satisfied option, bare optional-value option, slice/map option with min reached and max not - detached and attached -, command) "
+ "C04": ("For 16 contexts before `--` (nothing, positional, flag, satisfied option, bare optional-value option of three kinds, slice/map/int-list option with min reached and max not - detached, attached, with one extra value already taken -, command) "
          "and two UNCONSTRAINED tail tokens, in every mode combination, the solver shows Parse succeeds, remaining ends with exactly the tail, no option/Called state "
          "or dispatch target changes because of the tail.",
          "two tail tokens, one context token group before `--`; the exempted case (`--` as a still-missing mandatory value) is only checked for returning normally; "),
@@ -45,7 +45,7 @@ CHECKS = {
  "C09": ("With require-order, for 6 kinds of satisfied option groups before the stop point, 3 kinds of stop token (positional, unknown option with symbolic name, `-`) and two UNCONSTRAINED tail tokens: "
          "remaining is exactly [stop, t1, t2] and all values/Called equal those of a second run of the prefix alone without require-order; a command-name token before the stop still descends.",
          "two tail tokens, one option group before the stop; "),
- "C10": ("14 command-line shapes over a 3-level tree (inherited root option, command with child, command without function, UnsetOptions wrapper with own option and child, command-only require-order, optional help command) "
+ "C10": ("15 command-line shapes over a 3-level tree (inherited root option, command with child, command without function, UnsetOptions wrapper with own option and child, command-only require-order, optional help command) "
          "with symbolic payloads: exactly one instrumented CommandFn runs (none + error where the command has no function), with the caller's context, the remaining list Parse returned and the parsed own/inherited option values; "
          "a command name as option value, after `--` or after the require-order stop does not select.",
          "fixed tree of depth 3, shapes enumerated in harness c10.go; "),
@@ -61,11 +61,12 @@ CHECKS = {
          "a task is entered only after each dependency exited nil; attempts are sequential, at most retries+1, none after a success.",
          "3 tasks (2 with retries); all choices are finite-domain and enumerated by the engine, no SMT query is needed; scheduling policy 'maximal intervals' (DESIGN.md 2.8): tasks count as entered as early and returned as late as any real schedule allows; memory visibility rests on Go's happens-before edges (assumed); "),
  "C14": ("Same exploration: after a final-attempt error or an ErrorSkipParents no transitive dependent is ever entered; Run returns nil iff no task failed, otherwise an *Errors value holding the task's error and exactly one ErrorTaskSkipped entry per never-started task that is not above a skip-parents task; "
-         "cancellation before Run or by a running task: started tasks finish, nothing that was not ready at the cancel point starts, an unfinished graph makes Run return an error.",
-         "3 tasks (2 with one retry in the three modes); cancellation by one task or before Run; "),
+         "cancellation before Run or by a running task: started tasks finish, nothing that was not ready at the cancel point starts, an unfinished graph makes Run return an error and every never-started task is accounted for by one ErrorTaskSkipped entry.",
+         "3 tasks (2 with one retry in the three modes); cancellation by one task (when it starts or when it ends) or before Run; "),
  "C15": ("Four independent tasks contending for 1-3 slots or serial mode, with first-attempt failures and retries, every completion order: the number of task functions inside never exceeds the limit (1 in serial mode); "
+         "the same bound while one of the tasks cancels the context (queued tasks must not start without a slot); two graphs run concurrently from two goroutines and sharing one Task (either graph serial, the ID first known through a placeholder) never execute it twice at once; "
          "with buffered output every attempt's output reaches the writer as one contiguous block and every attempt is flushed.",
-         "4 tasks; NOT decided here: the shared-Task clause for two concurrently running graphs (the engine's scheduler supports one polling scheduler loop) - see DESIGN.md 7; "),
+         "4 tasks, limits 1-3; two graphs sharing one task; interleavings between two scheduler loops are settled deterministically after each delivery, not enumerated; "),
  "C16": ("All sequences of 3 (thorough 4) construction calls, each a symbolic choice of AddTask / TaskDependsOn / TaskRetries over 3 tasks (re-adds, duplicate and self edges), followed by Run under every completion order: "
          "Run returns (the engine reports a hang when the scheduler loop spins with nothing in flight, replayed natively under a time limit), a cycle is rejected before any task starts with ErrorGraphHasCycle, acyclic graphs run every task once; "
          "DepthFirstSort on every shape: each vertex once, dependencies first; work conservation checked at every idle point of the scheduler loop over all shapes/outcomes/modes.",
@@ -81,7 +82,7 @@ CHECKS = {
  "C19": ("Every instruction that can panic is checked and every loop is bounded on all explored paths: two UNCONSTRAINED raw tokens over the small program in all modes, one raw token (+ value / terminator / dash / command) over all 12 option kinds, "
          "COMP_LINE with a raw last word for both targets, Dispatch and Help() after every successful Parse, int ranges whose ends reach MaxInt64 / MinInt64; a failed Parse returns nil remaining.",
          "argv of <=2 tokens, bundles <=2 letters, numerals <=12 digits and no '..' in raw tokens (ranges have their own harness), quick tier restricts mode combinations (all 18 in thorough); "),
- "C20": ("8 scenarios with >=2 entries in every table (missing required options at root and on a command, unknown options in Fail and Warn mode, 3 ambiguous candidates, help text, option and command completion) are run under the canonical map order and under every explored "
+ "C20": ("12 scenarios with >=2 entries in every table (missing required options at root and on a command, unknown options in Fail and Warn mode, 3 ambiguous candidates, help text, `help <abbreviated topic>`, abbreviated option with attached value, option and command completion) are run under the canonical map order and under every explored "
          "iteration order of every map ranged over (all permutations up to 3 entries, rotations+reverse beyond): all observable output must be identical.",
          "one iteration order per map object per run; cross-process hidden state other than map order is not modelled; natively the scenario is repeated 300 times; "),
 }
